@@ -286,47 +286,82 @@ def script_of_line(trace, line):
 
 # ---------------------------------------------------------------------------
 # property table
+#
+# A *family* is a configuration of the specification (enabled calls, destructor menu, scope
+# switches) together with the harness' random-driver profile.  All properties that use a
+# family share its (cached) exhaustive TLC run, in which every invariant of the family is
+# checked.
 
-OPS = {
-    "core": "OpsCore",
-    "weak": "OpsWeak",
-}
-
-# spec-level invariants checked exhaustively per family (all properties of the family share
-# one cached TLC run)
-FAMILY_INVS = {
-    "core": ["TypeOK", "MC_C01", "MC_C02", "MC_C03", "MC_C04", "MC_C06", "MC_C08", "MC_C14"],
-    "weak": ["TypeOK", "MC_C01", "MC_C02", "MC_C03", "MC_C04", "MC_C05", "MC_C06", "MC_C08"],
+FAMILIES = {
+    "core": dict(ops="OpsCore", menu="MenuPlain", profile="core",
+                 invs=["TypeOK", "MC_C01", "MC_C02", "MC_C03", "MC_C04", "MC_C06", "MC_C08", "MC_C14"],
+                 quick=dict(mc=[dict(nobj=2, caps="Caps2")],
+                            sim=[dict(nobj=2, caps="Caps2", num=500, simlen=25), dict(nobj=3, caps="Caps3", num=500, simlen=30)]),
+                 thorough=dict(mc=[dict(nobj=2, caps="CapsL"), dict(nobj=3, caps="CapsT")],
+                               sim=[dict(nobj=3, caps="Caps3", num=6000, simlen=40), dict(nobj=4, caps="Caps3", num=6000, simlen=50)])),
+    "weak": dict(ops="OpsWeakQ", menu="MenuPlain", profile="weak",
+                 invs=["TypeOK", "MC_C01", "MC_C02", "MC_C03", "MC_C04", "MC_C05", "MC_C06", "MC_C08"],
+                 quick=dict(mc=[dict(nobj=2, caps="CapsW")],
+                            sim=[dict(nobj=2, caps="Caps2", num=500, simlen=25, ops="OpsWeak"), dict(nobj=3, caps="Caps3", num=500, simlen=30, ops="OpsWeak")]),
+                 thorough=dict(mc=[dict(nobj=2, caps="CapsW", ops="OpsWeak"), dict(nobj=3, caps="CapsW")],
+                               sim=[dict(nobj=3, caps="Caps3", num=6000, simlen=40, ops="OpsWeak"), dict(nobj=4, caps="Caps3", num=6000, simlen=50, ops="OpsWeak")])),
+    "dtor10": dict(ops="OpsDtor", menu="MenuC10", profile="dtor10",
+                   invs=["MC_C10", "MC_C16"],
+                   quick=dict(mc=[dict(nobj=2, caps="CapsQ", menu="MenuC10Q")],
+                              sim=[dict(nobj=3, caps="Caps3", num=600, simlen=30)]),
+                   thorough=dict(mc=[dict(nobj=2, caps="CapsQ")],
+                                 sim=[dict(nobj=3, caps="Caps3", num=6000, simlen=40), dict(nobj=4, caps="Caps3", num=4000, simlen=50)])),
+    "dtor16": dict(ops="OpsDtor", menu="MenuC16", profile="dtor16",
+                   invs=["MC_C16", "MC_C02", "MC_C06"],
+                   quick=dict(mc=[dict(nobj=2, caps="CapsQ")],
+                              sim=[dict(nobj=3, caps="Caps3", num=600, simlen=30)]),
+                   thorough=dict(mc=[dict(nobj=2, caps="CapsM"), dict(nobj=3, caps="CapsQ", ops="OpsDtorQ")],
+                                 sim=[dict(nobj=3, caps="Caps3", num=6000, simlen=40), dict(nobj=4, caps="Caps3", num=4000, simlen=50)])),
+    "dtor05": dict(ops="OpsDtor", menu="MenuC05", profile="dtor05",
+                   invs=["MC_C05", "MC_C02", "MC_C06"],
+                   quick=dict(mc=[dict(nobj=2, caps="CapsQ")],
+                              sim=[dict(nobj=3, caps="Caps3", num=600, simlen=30)]),
+                   thorough=dict(mc=[dict(nobj=2, caps="CapsM"), dict(nobj=3, caps="CapsQ", ops="OpsDtorQ")],
+                                 sim=[dict(nobj=3, caps="Caps3", num=6000, simlen=40), dict(nobj=4, caps="Caps3", num=4000, simlen=50)])),
+    "panic": dict(ops="OpsDtor", menu="MenuPanic", profile="panic",
+                  invs=["MC_C11"],
+                  quick=dict(mc=[dict(nobj=2, caps="CapsQ")],
+                             sim=[dict(nobj=3, caps="Caps3", num=600, simlen=30)]),
+                  thorough=dict(mc=[dict(nobj=2, caps="CapsM"), dict(nobj=3, caps="CapsQ", ops="OpsDtorQ")],
+                                sim=[dict(nobj=3, caps="Caps3", num=6000, simlen=40), dict(nobj=4, caps="Caps3", num=4000, simlen=50)])),
+    "consume": dict(ops="OpsConsume", menu="MenuPlain", profile="consume",
+                    invs=["MC_C12", "MC_C01", "MC_C03"],
+                    quick=dict(mc=[dict(nobj=2, caps="CapsQ")],
+                               sim=[dict(nobj=3, caps="Caps3", num=600, simlen=30)]),
+                    thorough=dict(mc=[dict(nobj=3, caps="CapsQ", ops="OpsConsumeQ")],
+                                  sim=[dict(nobj=3, caps="Caps3", num=6000, simlen=40), dict(nobj=4, caps="Caps3", num=4000, simlen=50)])),
+    "stale": dict(ops="OpsCore", menu="MenuPlain", profile="stale",
+                  invs=["MC_C13x", "MC_C06", "MC_C08", "MC_C04"],
+                  quick=dict(mc=[dict(nobj=2, caps="CapsS")],
+                             sim=[dict(nobj=2, caps="CapsS3", num=500, simlen=25), dict(nobj=3, caps="CapsS", num=500, simlen=30)]),
+                  thorough=dict(mc=[dict(nobj=2, caps="CapsS3"), dict(nobj=3, caps="CapsS", ops="OpsCoreQ")],
+                                sim=[dict(nobj=3, caps="CapsS3", num=6000, simlen=40), dict(nobj=4, caps="CapsS", num=4000, simlen=50)])),
 }
 
 TIERS = {
-    "quick": dict(
-        mc={"core": [dict(nobj=2, caps="Caps2", timeout=600)],
-            "weak": [dict(nobj=2, caps="CapsW", ops="OpsWeakQ", timeout=600)]},
-        sim={"core": [dict(nobj=2, caps="Caps2", num=600, simlen=25), dict(nobj=3, caps="Caps3", num=600, simlen=30)],
-             "weak": [dict(nobj=2, caps="Caps2", num=600, simlen=25), dict(nobj=3, caps="Caps3", num=600, simlen=30)]},
-        drive=dict(scripts=300, length=60, nobj=5),
-        chunks=6, conform_frac=1.0),
-    "thorough": dict(
-        mc={"core": [dict(nobj=2, caps="CapsM", timeout=3000), dict(nobj=3, caps="CapsT", timeout=6000)],
-            "weak": [dict(nobj=2, caps="CapsWM", timeout=3000), dict(nobj=3, caps="CapsWT", timeout=6000)]},
-        sim={"core": [dict(nobj=2, caps="Caps2", num=8000, simlen=30), dict(nobj=3, caps="Caps3", num=8000, simlen=40),
-                      dict(nobj=4, caps="Caps3", num=8000, simlen=50)],
-             "weak": [dict(nobj=2, caps="Caps2", num=8000, simlen=30), dict(nobj=3, caps="Caps3", num=8000, simlen=40),
-                      dict(nobj=4, caps="Caps3", num=8000, simlen=50)]},
-        drive=dict(scripts=5000, length=150, nobj=7),
-        chunks=14, conform_frac=1.0),
+    "quick": dict(drive=dict(scripts=240, length=60, nobj=5), chunks=6, mc_timeout=900),
+    "thorough": dict(drive=dict(scripts=4000, length=150, nobj=7), chunks=14, mc_timeout=7200),
 }
 
 PROPS = {
-    "C01": dict(family="core", monitor=["C01"], level="model_checking"),
-    "C02": dict(family="core", monitor=["C02"], level="model_checking"),
-    "C03": dict(family="core", monitor=["C03"], level="model_checking"),
-    "C06": dict(family="core", monitor=["C06"], level="model_checking"),
-    "C08": dict(family="core", monitor=["C08"], level="model_checking"),
-    "C14": dict(family="core", monitor=["C14"], level="model_checking"),
-    "C04": dict(family="weak", monitor=["C04"], level="model_checking"),
-    "C05": dict(family="weak", monitor=["C05"], level="model_checking"),
+    "C01": dict(fams=["core"], monitor=["C01"], level="model_checking"),
+    "C02": dict(fams=["core", "weak"], monitor=["C02"], level="model_checking"),
+    "C03": dict(fams=["core"], monitor=["C03"], level="model_checking"),
+    "C04": dict(fams=["weak", "consume"], monitor=["C04"], level="model_checking"),
+    "C05": dict(fams=["weak", "dtor05"], monitor=["C05"], level="model_checking"),
+    "C06": dict(fams=["core", "stale"], monitor=["C06"], level="model_checking"),
+    "C08": dict(fams=["core", "stale"], monitor=["C08"], level="model_checking"),
+    "C10": dict(fams=["dtor10"], monitor=["C10"], level="model_checking"),
+    "C11": dict(fams=["panic"], monitor=["C11"], level="model_checking"),
+    "C12": dict(fams=["consume"], monitor=["C12"], level="model_checking"),
+    "C13": dict(fams=["stale"], monitor=["C13x", "C13"], known_prop="C13", level="model_checking"),
+    "C14": dict(fams=["core"], monitor=["C14"], level="model_checking"),
+    "C16": dict(fams=["dtor16"], monitor=["C16"], level="model_checking"),
 }
 
 VARIANT = "VFixed"
@@ -349,7 +384,6 @@ def run_check(prop, tier, seed, replay):
         raise ToolError("unknown or unclaimed property %s" % prop)
     P = PROPS[prop]
     T = TIERS[tier]
-    fam = P["family"]
     wd = os.path.join(WORK, prop)
     shutil.rmtree(wd, ignore_errors=True)
     os.makedirs(wd)
@@ -359,34 +393,54 @@ def run_check(prop, tier, seed, replay):
 
     script_files = []   # (label, path, nobj)
     spec_stats = []
+    drive_traces = []
     if replay:
         script_files.append(("replay", os.path.abspath(replay), max_obj(replay)))
     else:
-        # 1. the specification side: exhaustive model checking of the property's family
-        for i, c in enumerate(T["mc"][fam]):
-            cfg = mc_cfg(c["nobj"], c.get("ops", OPS[fam]), c["caps"], VARIANT, "MenuPlain", FAMILY_INVS[fam])
-            st = tlc_exhaustive("%s_%s_%d" % (fam, tier, i), cfg, c["timeout"], workers=min(12, NCPU))
-            st["cfg"] = dict(nobj=c["nobj"], caps=c["caps"], ops=c.get("ops", OPS[fam]), variant=VARIANT)
-            spec_stats.append(st)
-            log("spec: %s nobj=%d caps=%s: %d states generated, %d distinct, depth %s%s" % (
-                fam, c["nobj"], c["caps"], st.get("generated", 0), st.get("distinct", 0), st.get("depth"),
-                " (cached)" if st["cached"] else " in %.0fs" % st["wall_s"]))
-            mine = [js for (p, js) in st["cex"] if p == prop]
-            if mine:
-                # the specification itself violates the property: confirm on the real code
-                pth = os.path.join(wd, "speccex.ndjson")
-                with open(pth, "w") as f:
-                    for js in mine[:20]:
-                        f.write(js + "\n")
-                script_files.append(("spec-counterexample", pth, c["nobj"]))
-        # 2. scripts generated by TLC from the specification (simulation mode)
-        for i, c in enumerate(T["sim"][fam]):
-            cfg = mc_cfg(c["nobj"], OPS[fam], c["caps"], VARIANT, "MenuPlain", [], simlen=c["simlen"], view=False,
-                         constraint="SimStop")
-            scr, info = tlc_simulate("%s_%s_%d" % (fam, tier, i), cfg, c["num"], 40 * c["simlen"], seed, 1800)
-            log("spec: simulation nobj=%d: %d scripts of %d calls" % (c["nobj"], info["scripts"], c["simlen"]))
-            script_files.append(("tlc-sim-%d" % c["nobj"], scr, c["nobj"]))
-        # 3. committed witnesses of repaired / known defects
+        for fam in P["fams"]:
+            F = FAMILIES[fam]
+            FT = F[tier]
+            # 1. the specification side: exhaustive model checking of the family
+            for i, c in enumerate(FT["mc"]):
+                ops = c.get("ops", F["ops"])
+                menu = c.get("menu", F["menu"])
+                cfg = mc_cfg(c["nobj"], ops, c["caps"], VARIANT, menu, F["invs"])
+                st = tlc_exhaustive("%s_%s_%d" % (fam, tier, i), cfg, T["mc_timeout"], workers=min(12, NCPU))
+                st["cfg"] = dict(family=fam, nobj=c["nobj"], caps=c["caps"], ops=ops, menu=menu, variant=VARIANT,
+                                 invariants=F["invs"])
+                spec_stats.append(st)
+                log("spec: %s nobj=%d caps=%s: %d states generated, %d distinct, depth %s%s" % (
+                    fam, c["nobj"], c["caps"], st.get("generated", 0), st.get("distinct", 0), st.get("depth"),
+                    " (cached)" if st["cached"] else " in %.0fs" % st["wall_s"]))
+                if st["cex"]:
+                    # the specification itself violates an invariant of this family: the call
+                    # sequences are replayed on the real code and judged there (DESIGN 5.3)
+                    pth = os.path.join(wd, "speccex_%s_%d.ndjson" % (fam, i))
+                    with open(pth, "w") as f:
+                        for _, js in st["cex"][:20]:
+                            f.write(js + "\n")
+                    script_files.append(("spec-counterexample", pth, c["nobj"]))
+                    log("spec: TLC reports counterexamples for %s in family %s" % (sorted(set(p for p, _ in st["cex"])), fam))
+            # 2. scripts generated by TLC from the specification (simulation mode)
+            for i, c in enumerate(FT["sim"]):
+                cfg = mc_cfg(c["nobj"], c.get("ops", F["ops"]), c["caps"], VARIANT, c.get("menu", F["menu"]), [],
+                             simlen=c["simlen"], view=False, constraint="SimStop")
+                scr, info = tlc_simulate("%s_%s_%d" % (fam, tier, i), cfg, c["num"], 40 * c["simlen"], seed, 1800)
+                log("spec: %s simulation nobj=%d: %d scripts of %d calls" % (fam, c["nobj"], info["scripts"], c["simlen"]))
+                script_files.append(("tlc-sim-%s-%d" % (fam, c["nobj"]), scr, c["nobj"] + (1 if fam == "consume" else 0)))
+            # 3. random histories generated by the harness itself (implementation -> specification)
+            dv = T["drive"]
+            k = max(1, T["chunks"] // len(P["fams"]))
+            for ci in range(k):
+                sp = os.path.join(wd, "drive_%s_%d.ndjson" % (fam, ci))
+                tp = os.path.join(wd, "drive_%s_%d.trace" % (fam, ci))
+                n = max(1, dv["scripts"] // (k * len(P["fams"])))
+                rc, out, dt = harness(binp, ["drive", str(seed * 1000 + ci), str(n), str(dv["length"]),
+                                             str(dv["nobj"]), F["profile"], sp, tp])
+                if rc != 0:
+                    raise ToolError("harness crashed in drive mode (rc=%s): %s" % (rc, (out or "")[-500:]))
+                drive_traces.append(dict(label="drive-" + fam, scripts=sp, trace=tp, nobj=dv["nobj"], n=n))
+        # 4. committed witnesses of repaired / known defects
         fdir = os.path.join(VERIF, "findings")
         if os.path.isdir(fdir):
             pth = os.path.join(wd, "witnesses.ndjson")
@@ -394,24 +448,9 @@ def run_check(prop, tier, seed, replay):
                 for fn in sorted(os.listdir(fdir)):
                     if fn.endswith(".ndjson"):
                         f.write(open(os.path.join(fdir, fn)).read())
-            script_files.append(("witnesses", pth, 3))
+            script_files.append(("witnesses", pth, 4))
 
-    # 3b. random histories generated by the harness itself (implementation -> specification)
-    drive_traces = []
-    if not replay:
-        dv = T["drive"]
-        prof = "weak" if fam == "weak" else "core"
-        k = T["chunks"]
-        for ci in range(k):
-            sp = os.path.join(wd, "drive_%d.ndjson" % ci)
-            tp = os.path.join(wd, "drive_%d.trace" % ci)
-            rc, out, dt = harness(binp, ["drive", str(seed * 1000 + ci), str(max(1, dv["scripts"] // k)), str(dv["length"]),
-                                         str(dv["nobj"]), prof, sp, tp])
-            if rc != 0:
-                raise ToolError("harness crashed in drive mode (rc=%s): %s" % (rc, (out or "")[-500:]))
-            drive_traces.append(dict(label="drive", scripts=sp, trace=tp, nobj=dv["nobj"], n=max(1, dv["scripts"] // k)))
-
-    # 4. replay everything on the real code
+    # 5. replay everything on the real code
     traces = []
     nscripts = 0
     samples = []
@@ -421,7 +460,7 @@ def run_check(prop, tier, seed, replay):
             continue
         nscripts += len(lines)
         samples.append(dict(source=label, script=fmt_script(json.loads(lines[min(3, len(lines) - 1)]))))
-        k = max(1, min(T["chunks"], len(lines) // 50 + 1))
+        k = max(1, min(T["chunks"], len(lines) // 60 + 1))
         for ci in range(k):
             part = lines[ci::k]
             sp = os.path.join(wd, "%s_%d.ndjson" % (label, ci))
@@ -432,18 +471,16 @@ def run_check(prop, tier, seed, replay):
             if rc != 0:
                 raise ToolError("harness crashed replaying %s (rc=%s): %s" % (sp, rc, (out or "")[-500:]))
             traces.append(dict(label=label, scripts=sp, trace=tp, nobj=nobj, n=len(part)))
-
     if drive_traces:
         traces.extend(drive_traces)
         nscripts += sum(t["n"] for t in drive_traces)
         l0 = open(drive_traces[0]["scripts"]).readline()
-        samples.append(dict(source="drive", script=fmt_script(json.loads(l0))[:600]))
+        samples.append(dict(source=drive_traces[0]["label"], script=fmt_script(json.loads(l0))[:600]))
 
-    # 5. TLC judges the traces (Monitor) and tests faithfulness (Conform)
+    # 6. TLC judges the traces (Monitor) and tests faithfulness (Conform)
     viols = []
     drift = []
     nlines = 0
-    pending = []
     maxpar = max(2, NCPU - 2)
     jobs = []
     for i, t in enumerate(traces):
@@ -472,14 +509,22 @@ def run_check(prop, tier, seed, replay):
     for h, m2, t2 in running:
         collect(h, m2, t2)
 
-    # 6. verdict
+    # 7. verdict.  A property with a known finding has two monitors: the strict one (its
+    # violations are instances of the finding when the finding's cause predicate explains
+    # them) and the one with the finding excused (its violations are new).
+    kprop = P.get("known_prop")
+    strict = [p for p in P["monitor"] if p != kprop] if kprop else P["monitor"]
     known = [k for k in load_known() if k.get("property") == prop and k.get("status") == "known"]
     out_viol = []
+    known_hits = {}
     seen_scripts = set()
     for v in viols:
         lines = open(v["trace"]["scripts"]).read().splitlines()
-        # script numbers are positions inside the chunk file
         js = lines[v["script"]]
+        if v["prop"] not in strict:
+            # instance of the known finding (explained by its cause predicate)
+            known_hits.setdefault(v["prop"], []).append(fmt_script(json.loads(js)))
+            continue
         if js in seen_scripts:
             continue
         seen_scripts.add(js)
@@ -488,6 +533,17 @@ def run_check(prop, tier, seed, replay):
         with open(rp, "w") as f:
             f.write(js + "\n")
         out_viol.append(dict(replay=rp, script=fmt_script(json.loads(js)), source=v["trace"]["label"]))
+    # scripts that violate the strict monitor as well are reported once, as violations
+    if kprop:
+        if not known and known_hits:
+            # no finding is listed: every instance is a violation
+            for hs in known_hits.values():
+                for h in hs[:5]:
+                    out_viol.append(dict(replay="(see work dir)", script=h, source="unlisted-finding"))
+        for k in known:
+            n = sum(len(v) for v in known_hits.values())
+            print("KNOWN-FINDING: property=%s %s (%s; %d instance(s) in this run, e.g. %s)" % (
+                prop, k["what"], k.get("site", ""), n, (list(known_hits.values())[0][0][:200] if n else "witness not triggered")))
     for v in out_viol[:10]:
         print("VIOLATION property=%s replay=%s" % (prop, v["replay"]))
         print("  history: %s" % v["script"])
@@ -505,12 +561,15 @@ def run_check(prop, tier, seed, replay):
             exhaustive=bool(spec_stats) and all(s.get("completed") for s in spec_stats),
             spec_runs=[dict(cfg=s["cfg"], distinct=s.get("distinct"), generated=s.get("generated"), depth=s.get("depth"),
                             cached=s["cached"], tlc_wall_s=round(s["wall_s"], 1),
-                            coverage_by_action={k: v[0] for k, v in s.get("coverage", {}).items() if k.startswith(("Step", "Op", "Call", "Micro", "MCNext"))})
+                            spec_counterexamples=sorted(set(p for p, _ in s["cex"])),
+                            coverage_by_action={k: v[0] for k, v in s.get("coverage", {}).items()})
                        for s in spec_stats],
             drift=len(drift),
-            rule="TLC model-checks the family's configuration exhaustively (all call histories within the caps, all iteration orders); "
-                 "TLC-generated call sequences are executed on the real library and every recorded trace is judged by TLC with the "
-                 "specification's own definition of the property (Monitor) and matched against the specification's actions (Conform)",
+            known_finding_instances=sum(len(v) for v in known_hits.values()),
+            rule="TLC model-checks each family's configuration exhaustively (all call histories within the caps, all iteration "
+                 "orders); TLC-generated call sequences (simulation mode) and random histories are executed on the real library "
+                 "and every recorded trace is judged by TLC with the specification's own definition of the property (Monitor) "
+                 "and matched against the specification's actions (Conform)",
         ),
         assumptions=[
             "small-scope: exhaustive within the stated object/handle caps only",
